@@ -258,6 +258,15 @@ Theorem store_admission_exact : forall H self_peer max_records k held far,
   end.
 Proof. intros H self_peer max_records k held far d. exact (store_admission_exact_lemma (key_dist H self_peer) max_records k held far). Qed.
 
+(* the boundary is exact: a record that is not farther than some held record (equal distance included: a re-put of
+   the farthest record itself, or of any held record) is never refused, whatever the fill level *)
+Theorem store_admits_not_farther : forall H self_peer max_records k held far,
+  let d := fun k => distance H (from_peer self_peer) (from_record_key k) in
+  far_ok (key_dist H self_peer) held far ->
+  (exists k', In k' held /\ d k <= d k') ->
+  store_prune (key_dist H self_peer) max_records k (held, far) <> None.
+Proof. intros H self_peer max_records k held far d. exact (store_admits_not_farther (key_dist H self_peer) max_records k held far). Qed.
+
 Theorem store_history_agreement_sound : forall H self_peer max_records keys steps,
   agree_store_hist H self_peer max_records keys steps = true ->
   forall st pre_held pre_far res post_held post_far,
